@@ -545,6 +545,17 @@ where
                         if self.options.transform_on
                             && (attr_name == "on" || attr_name == "nativeOn")
                         {
+                            // keep source order: attributes written before `on` are merged first
+                            if !props.is_empty() {
+                                merge_args.push(Expr::Object(ObjectLit {
+                                    span: DUMMY_SP,
+                                    props: if self.options.merge_props {
+                                        util::dedupe_props(mem::take(&mut props))
+                                    } else {
+                                        mem::take(&mut props)
+                                    },
+                                }));
+                            }
                             merge_args.push(Expr::Call(CallExpr {
                                 span: DUMMY_SP,
                                 callee: Callee::Expr(Box::new(Expr::Ident(
